@@ -764,6 +764,68 @@ Proof.
   cbn [app]. clear Hne. induction H as [|s ss Hs _ IH]; [reflexivity|]. cbn [flat_map map]. rewrite seg_comp_ordinary, IH by auto. reflexivity.
 Qed.
 
+(* the paths tried for an ordinary path are the joined non-empty trailing
+   sub-lists of its segments, shortest first *)
+Fixpoint suffixes_from (rs : list str) (acc : list str) : list (list str) :=
+  match rs with [] => [] | s :: r => (s :: acc) :: suffixes_from r (s :: acc) end.
+Lemma join_ordinary_shape acc : acc <> [] -> Forall ordinary acc ->
+  exists c r, join_with 47 acc = c :: r /\ c <> 47.
+Proof.
+  intros Hne H. destruct acc as [|s ss]; [congruence|]. inversion H as [|? ? (A & B & _) _]; subst.
+  destruct s as [|c r]; [congruence|]. cbn [mem] in B. apply orb_false_elim in B as [B1 _].
+  rewrite join_cons_char. exists c. eexists. split; [reflexivity|]. intros ->. discriminate.
+Qed.
+Lemma walk_step_match (j x y : str) : j <> [] -> j <> [47] ->
+  match j with [] => x | [47] => x | _ => y end = y.
+Proof.
+  intros A B. destruct j as [|c t]; [congruence|]. destruct t as [|c2 t2].
+  - destruct (N.eq_dec c 47) as [->|Hn]; [congruence|]. destruct c as [|p]; auto.
+    repeat (destruct p as [p|p|]; auto); congruence.
+  - destruct c as [|p]; auto. repeat (destruct p as [p|p|]; auto).
+Qed.
+Lemma walk_ordinary_gen rs : forall acc, Forall ordinary rs -> Forall ordinary acc ->
+  walk_paths (map CNormal rs) (join_with 47 acc) = map (join_with 47) (suffixes_from rs acc).
+Proof.
+  induction rs as [|s r IH]; intros acc Hr Ha; [reflexivity|].
+  inversion Hr as [|? ? Hs Hr']; subst.
+  cbn [map walk_paths suffixes_from].
+  assert (match join_with 47 acc with [] => comp_text (CNormal s) | [47] => comp_text (CNormal s)
+          | _ => join_path (CNormal s) (join_with 47 acc) end = join_with 47 (s :: acc)) as E.
+  { destruct acc as [|a acc']; [reflexivity|].
+    destruct (join_ordinary_shape (a :: acc')) as (c & t & Ej & Hc); [discriminate|exact Ha|].
+    change (join_with 47 (s :: a :: acc')) with (s ++ 47 :: join_with 47 (a :: acc')).
+    rewrite walk_step_match; [|rewrite Ej; discriminate|rewrite Ej; intros [= -> _]; congruence].
+    rewrite Ej. reflexivity. }
+  rewrite E. f_equal. apply (IH (s :: acc)); auto.
+Qed.
+Theorem walk_ordinary segs : Forall ordinary segs ->
+  walk_paths (List.rev (map CNormal segs)) [] = map (join_with 47) (suffixes_from (List.rev segs) []).
+Proof.
+  intros H. rewrite <- map_rev. apply (walk_ordinary_gen (List.rev segs) []); [|constructor].
+  apply Forall_rev. exact H.
+Qed.
+(* the suffixes are exactly the non-empty trailing sub-lists, shortest first *)
+Lemma suffixes_from_spec rs : forall acc, suffixes_from rs acc = map (fun k => List.rev (firstn (S k) rs) ++ acc) (seq 0 (List.length rs)).
+Proof.
+  induction rs as [|s r IH]; intros acc; [reflexivity|].
+  cbn [suffixes_from List.length seq map]. f_equal. rewrite IH, <- seq_shift, map_map. apply map_ext. intros k.
+  cbn [firstn List.rev]. rewrite <- app_assoc. reflexivity.
+Qed.
+(* find_entry on an ordinary path: the first recorded name among the joined
+   trailing segment lists, shortest first *)
+Theorem find_entry_ordinary d segs : segs <> [] -> Forall ordinary segs ->
+  let p := join_with 47 segs in
+  find_entry d p = match List.find (fun q => match get_entry (class_map d p) q with Some _ => true | None => false end)
+                                   (map (fun k => join_with 47 (skipn (List.length segs - S k) segs)) (seq 0 (List.length segs))) with
+                   | Some q => get_entry (class_map d p) q | None => None end.
+Proof.
+  intros Hne H p. rewrite find_entry_spec. unfold p. rewrite comps_ordinary, walk_ordinary by auto.
+  rewrite suffixes_from_spec, map_map, rev_length.
+  assert (forall k, (k < List.length segs)%nat -> List.rev (firstn (S k) (List.rev segs)) ++ [] = skipn (List.length segs - S k) segs) as E.
+  { intros k Hk. rewrite app_nil_r, firstn_rev, rev_involutive. reflexivity. }
+  erewrite map_ext_in; [reflexivity|]. intros k Hk. apply in_seq in Hk. cbv beta. rewrite E by lia. reflexivity.
+Qed.
+
 (* size verification: succeeds exactly when the length equals the recorded size *)
 Theorem verify_size_spec d p c : verify_size d p (Some c) =
   match find_entry d p with
